@@ -179,8 +179,47 @@ def run(ctx, chk):
             adds = [1 for _, t in body.calls() if _is_version_add(t)]
             chk.oblige("F1c %s: wrapper adds no version term" % bid.split(" as ")[0].lstrip("<"), not adds,
                        key="F1|wrapper|%s" % bid, msg="version arithmetic belongs to the inner type only")
-    if n_wr < 20:
-        raise AnchorMissing("expected >= 20 ImportableVec wrapper methods, found %d" % n_wr)
+    # 4 entry points per storage wrapper: Bytes (always), ZeroCopy, Pco, LZ4, Zstd (feature-gated)
+    floor = {"all": 20, "test": 8, "none": 4}.get(ctx.config, 4)
+    if n_wr < floor:
+        raise AnchorMissing("expected >= %d ImportableVec wrapper methods in config %s, found %d" % (floor, ctx.config, n_wr))
+    # F4 a fresh header is written only into an empty region: at every Header::create_and_write site of the base
+    # import, `region len <= 0` is an established fact (otherwise the stored header would be replaced unverified)
+    import decode
+    D = getattr(ctx, "_decode", None) or decode.Decode(P)
+    ctx._decode = D
+    bi = P.bodies["vecdb::base::read_write::ReadWriteBaseVec::<I, T>::import"]
+    cs = O.sites(bi, M(r"vecdb::base::header::Header::create_and_write"))
+    vs = O.sites(bi, M(r"vecdb::base::header::Header::import_and_verify"))
+    if not cs or not vs:
+        raise AnchorMissing("ReadWriteBaseVec::import: create_and_write / import_and_verify sites not found")
+    for b in cs:
+        facts = D.facts_at(bi, b)
+        empty = any(bb == ("c", 0) and a[0] == "l" for a, bb in facts) or any(
+            D.ub(facts, a) == 0 for a, _ in facts if a[0] == "l")
+        chk.oblige("F4 ReadWriteBaseVec::import: Header::create_and_write only where the region length is known to be 0",
+                   empty, detail={"facts": [(D.show(a), D.show(bb)) for a, bb in facts][:8]},
+                   key="F4|base-import|fresh-header-on-nonempty-region",
+                   msg="an existing header must be verified, never rewritten: a weakened 'is fresh' test lets a mismatching "
+                       "import succeed and overwrite the stored version")
+    # F1d the plain entry points of every wrapper never reach the forced path
+    nf1d = 0
+    for bid, body in sorted(P.bodies.items()):
+        m = re.search(r"ImportableVec>::(import|import_with)$", bid) or re.search(
+            r"importable::<impl vecdb::traits::importable::ImportableVec for .*>::(import|import_with)$", bid)
+        if not m:
+            continue
+        nf1d += 1
+        r = O.reach(bid)
+        forced = sorted(x for x in r if x.endswith("::forced_import_with") or x.endswith("::forced_import")
+                        or x.endswith("remove_region_if_exists"))
+        chk.oblige("F1d %s never reaches a forced import / region removal" % bid.split(" for ")[-1][:90], not forced,
+                   detail={"reaches": forced[:4]}, key="F1d|%s" % bid.split(" for ")[-1],
+                   msg="plain import must fail on a mismatch and leave the data untouched; routing it to the forced path "
+                       "discards data")
+    floor = {"all": 12, "test": 6, "none": 4}.get(ctx.config, 4)
+    if nf1d < floor:
+        raise AnchorMissing("F1d: %d plain import entry points found in config %s, %d confirmed by hand" % (nf1d, ctx.config, floor))
     # ATOM: plain import leaves data untouched on mismatch
     c13.run(ctx, chk, only={RAW + "import_with", CMP + "import_with"}, prefix="ATOM14")
     chk.sample({"rule": "F2a", "discard_arms": {k: sorted(v) for k, v in arms.items()}})
